@@ -147,6 +147,11 @@ CallLabels(tag, DD, n, res, pre, dl, fx, maxdepth, taint) ==
                 \/ ~PrintT(<<"INFO", tag, "call", n, "returned", res, "expected", exp>>)),
           "C01.Transparent")
       \cup Lbl(res = ErrDeep \/ res = exp \/ n \notin taint, "KF:C01.caught-failure")
+      \* get_error() is the original exception: when the evaluation fails (by the oracle
+      \* or in fact), the error reported is the one the oracle's evaluation ends with
+      \cup Lbl((IsErr(exp) \/ IsErr(res)) => (res = exp \/ res = ErrDeep \/ n \in taint
+                    \/ ~PrintT(<<"INFO", tag, "error of", n, "reported", res, "expected", exp>>)),
+               "C17.ErrorIdentity")
       \cup Lbl(\A m \in Ent : IsCachedNode(DD, m) => m \notin DOMAIN pre, "C01.ComputedOnce")
       \cup Lbl(\A m \in Ent : IsCachedNode(DD, m) =>
                   Cardinality({j \in ExitIdx(fx) : fx[j][2] = m /\ fx[j][3] # NoneV}) <= 1, "C01.ComputedOnceInCall")
@@ -161,8 +166,11 @@ CallLabels(tag, DD, n, res, pre, dl, fx, maxdepth, taint) ==
       \cup Lbl(\A m \in DOMAIN pre \cap DOMAIN dl : dl[m] = pre[m], "C06.CallChangesNothing")
 
 \* tb = what get_traceback() listed: sequence of <<node, line>>
-TracebackLabels(tag, res, fx, tb) ==
-    LET chain == ChainOf(fx)
+\* chain = the formula frames the interpreter's own traceback of the escaping
+\* exception lists (logged as `tbx`; equal to ChainOf(fx) unless a handler ran other
+\* evaluations before re-raising, which puts foreign unwind records in between)
+TracebackLabels(tag, res, chain, tb) ==
+    LET
         \* NoneReturnedError is raised after the formula returned: the
         \* element that returned None closes the listing, without a line
         want == IF res = ErrNone /\ Len(tb) > 0 THEN Len(chain) + 1 ELSE Len(chain)
